@@ -25,6 +25,10 @@ type SrvWorld struct {
 	srvSock *UDPSock
 	srvLn   *TCPListener
 	Clients map[string]*RawClient
+	Real    map[string]*RealClient
+	e2eMu   sync.Mutex
+	PeerProbes map[string]*peerProbe
+	releaseReported bool
 	Peers   map[string]*PeerActor
 	Gen     *SimRelayGen
 
@@ -103,7 +107,7 @@ func (g *SimRelayGen) AllocateConn(c turn.AllocateConnConfig) (net.Conn, error) 
 }
 
 func NewSrvWorld(k *Kernel, p *Plan) *SrvWorld {
-	w := &SrvWorld{K: k, P: p, Clients: map[string]*RawClient{}, Peers: map[string]*PeerActor{}, Submitted: map[string][]byte{},
+	w := &SrvWorld{K: k, P: p, Clients: map[string]*RawClient{}, Real: map[string]*RealClient{}, PeerProbes: map[string]*peerProbe{}, Peers: map[string]*PeerActor{}, Submitted: map[string][]byte{},
 		inspectReq: make(chan func()), inspectRes: make(chan struct{})}
 	w.Net = NewNet(k)
 	w.Mon = NewMonitor(k, w.Net, p)
@@ -316,6 +320,10 @@ func (w *SrvWorld) Start() {
 	// scripted endpoints
 	for i := range w.P.Clients {
 		spec := w.P.Clients[i]
+		if spec.Kind == "real" {
+			w.startRealClient(spec)
+			continue
+		}
 		c := &RawClient{W: w, Spec: spec, Addr: mustUDPAddr(spec.Addr), tids: map[int][12]byte{}, sent: map[int][]byte{}, pending: map[[12]byte]*pendOp{}}
 		w.Clients[spec.ID] = c
 		if cfg.Listener == "tcp" {
@@ -471,6 +479,10 @@ func (w *SrvWorld) scheduleNext() {
 }
 
 func (w *SrvWorld) exec(op *Op) {
+	if rc := w.Real[op.Actor]; rc != nil {
+		w.execReal(rc, op)
+		return
+	}
 	if c := w.Clients[op.Actor]; c != nil {
 		c.ensureConn()
 		c.Do(op)
@@ -480,7 +492,9 @@ func (w *SrvWorld) exec(op *Op) {
 		switch op.Kind {
 		case "peer_send":
 			var dst *net.UDPAddr
-			if r := w.relayOf(op.A.Target); r != nil {
+			if r := w.realRelayOf(op.A.Target); r != nil {
+				dst = r
+			} else if r := w.relayOf(op.A.Target); r != nil {
 				dst = r
 			} else if strings.Contains(op.A.Target, ":") {
 				dst = mustUDPAddr(op.A.Target)
@@ -493,6 +507,11 @@ func (w *SrvWorld) exec(op *Op) {
 			if op.A.N != 0 { // same IP, other port: a second socket of that host
 				src = &net.UDPAddr{IP: p.Addr.IP, Port: op.A.N}
 				w.Net.SetName(akey(src.IP, src.Port), fmt.Sprintf("%s:%d", p.Spec.ID, op.A.N))
+			}
+			if w.Real[op.A.Target] != nil {
+				w.e2eMu.Lock()
+				w.PeerProbes[fmt.Sprintf("%s/%d", p.Spec.ID, op.ID)] = &peerProbe{T: w.K.Now(), Target: op.A.Target, From: ustr(src), Data: payload, Expect: !hasFlag(op, "unpermitted")}
+				w.e2eMu.Unlock()
 			}
 			w.Net.SendUDP(src, dst, payload)
 		default:
@@ -530,6 +549,22 @@ func (w *SrvWorld) closeServer() {
 }
 
 func (w *SrvWorld) finish() {
+	if len(w.Real) > 0 {
+		w.checkE2E()
+		for _, rc := range w.Real {
+			w.e2eMu.Lock()
+			relay, cli, closed := rc.Relay, rc.Cli, rc.Closed
+			w.e2eMu.Unlock()
+			w.lib("close-real", func() {
+				if relay != nil && !closed {
+					_ = relay.Close()
+				}
+				if cli != nil {
+					cli.Close()
+				}
+			})
+		}
+	}
 	w.closeServer()
 	// "once the server has been closed nothing remains": judged before the harness closes its
 	// own endpoints (a client that hangs up would make the server clean up after all)
@@ -552,6 +587,10 @@ func (w *SrvWorld) afterServerClose() {
 		}
 	}
 	w.checkStreams()
+	for _, rc := range w.Real {
+		rs := rc.sock
+		w.lib("close-client", func() { _ = rs.Close() })
+	}
 	// close every harness-owned endpoint so that only library leaks remain
 	for _, p := range w.Peers {
 		if p.ln != nil {
@@ -636,6 +675,9 @@ func (w *SrvWorld) Idle(now int64) {
 		return
 	}
 	w.Mon.Idle(now, w.allocCount(), w.lossFree)
+	if len(w.Real) > 0 {
+		w.checkReleased(now)
+	}
 }
 
 // Run drives the world to completion and returns the reason the driver stopped.
